@@ -41,8 +41,12 @@ pub fn knobs_for(prop: &str) -> Knobs {
     }
     k
 }
-pub fn runner_for(_prop: &str) -> &'static str {
-    "run_sm_all"
+pub fn runner_for(prop: &str) -> &'static str {
+    match prop {
+        "C02" => "run_c02", "C04" => "run_c04", "C05" => "run_c05", "C06" => "run_c06", "C07" => "run_c07",
+        "C08" => "run_c08", "C09" => "run_c09", "C10" => "run_c10", "C12" => "run_c12", "C14" => "run_c14",
+        "C18" => "run_c18", _ => "run_sm_all",
+    }
 }
 
 const GOOD_URLS: [&str; 5] = ["http://example.com/", "https://omaha.example.org/service/update/json", "http://[::1]:8080/?a=b",
@@ -116,6 +120,10 @@ pub fn gen_sm(rng: &mut Rng, k: &Knobs) -> Value {
     for i in 0..napps {
         let id = format!("app{}-{}", i, rand_ident(rng));
         let mut a = rand_app_json(rng, &id, 1);
+        // extras that shadow protocol keys are exercised by C15; here they would confuse the read-back summary
+        if a["extra"].as_array().map(|x| x.iter().any(|kv| ["appid", "version", "ping", "cohort", "cohorthint", "cohortname", "updatecheck", "event", "fp"].contains(&strv(&kv[0]).as_str()))).unwrap_or(false) {
+            a["extra"] = json!([]);
+        }
         // versions must be non-zero for a valid app set
         if ver_arr(&a["ver"]) == [0, 0, 0, 0] { a["ver"] = json!([1, 0, 0, 0]); }
         // header-safe ids only (first app id becomes a header value)
